@@ -304,10 +304,55 @@ static Textbook textbook_hllc(const Case &c) {
 static const char *hllc_region_name(int r) {
   return r == 0 ? "hllc-star-state" : r < 0 ? "hllc-left-state" : "hllc-right-state";
 }
-/// sub-regime of the approximate solver: which state its flux is built from,
-/// or the fact that its wave speed estimates are not ordered
-static std::string hllc_sub(const Textbook &T) {
-  return T.ordered ? hllc_region_name(T.region) : "hllc-unordered-speeds";
+/// the wave speed estimates of the approximate solver evaluated with the
+/// code's own double expressions (HLLCRiemannSolver.hpp:414-445): which state
+/// its flux is built from and whether the estimates are ordered
+struct CodeBranch {
+  int region; // -1 left state, 0 star state, +1 right state
+  bool ordered;
+};
+static CodeBranch hllc_code_branch(const HLLCRiemannSolver &S, const Case &c) {
+  const double rhoLinv = 1. / (c.rL + DBL_MIN), rhoRinv = 1. / (c.rR + DBL_MIN);
+  const double PLinv = 1. / (c.pL + DBL_MIN), PRinv = 1. / (c.pR + DBL_MIN);
+  const CoordinateVector<> uLf = cv(c.uL) - cv(c.vf), uRf = cv(c.uR) - cv(c.vf);
+  const double vL = CoordinateVector<>::dot_product(uLf, cv(c.n));
+  const double vR = CoordinateVector<>::dot_product(uRf, cv(c.n));
+  const double aL = std::sqrt(S._gamma * c.pL * rhoLinv), aR = std::sqrt(S._gamma * c.pR * rhoRinv);
+  const double vdiff = vR - vL, abar = aL + aR;
+  const double rhobar = c.rL + c.rR, Pbar = c.pL + c.pR;
+  const double pPVRS = 0.5 * (Pbar - 0.25 * vdiff * rhobar * abar);
+  const double pstar = std::max(0., pPVRS);
+  double qL = 1., qR = 1.;
+  if (pstar > c.pL)
+    qL = std::sqrt(1. + S._gp1d2g * (pstar * PLinv - 1.));
+  if (pstar > c.pR)
+    qR = std::sqrt(1. + S._gp1d2g * (pstar * PRinv - 1.));
+  const double SLmvL = -aL * qL, SRmvR = aR * qR;
+  const double Pdiff = c.pR - c.pL;
+  const double rhovSdiff = c.rL * vL * SLmvL - c.rR * vR * SRmvR;
+  const double rhoSdiff = c.rL * SLmvL - c.rR * SRmvR;
+  const double Sstar = (Pdiff + rhovSdiff) / (rhoSdiff + DBL_MIN);
+  const double SL = SLmvL + vL, SR = SRmvR + vR;
+  CodeBranch b;
+  if (Sstar >= 0.)
+    b.region = SL < 0. ? 0 : -1;
+  else
+    b.region = SR > 0. ? 0 : 1;
+  b.ordered = SL <= Sstar && Sstar <= SR;
+  return b;
+}
+/// (ordered only if both the code's double values and the long double
+/// evaluation say so: where the contact speed is a difference of cancelling
+/// terms its sign is rounding noise)
+static std::string hllc_sub(const CodeBranch &b, const Textbook &T, const CodeBranch *other = nullptr) {
+  if (!(b.ordered && T.ordered))
+    return "hllc-unordered-speeds";
+  // next to SL = 0 / SR = 0 the code, the long double evaluation and the
+  // second call of a pair may take different branches: the star state is
+  // involved as soon as one of them uses it
+  if (b.region == 0 || T.region == 0 || (other && other->region == 0))
+    return hllc_region_name(0);
+  return hllc_region_name(b.region);
 }
 /// does the approximate solver take its non-vacuum branch?  (its own test,
 /// evaluated with the same double expressions)
@@ -333,7 +378,7 @@ struct Acc {
   uint64_t checks[O_COUNT] = {0}, near[O_COUNT] = {0};
   double worst[O_COUNT] = {0};
   uint64_t regimes[6] = {0};
-  uint64_t cont_unresolved = 0, sample_rescued = 0;
+  uint64_t cont_unresolved = 0, sample_rescued = 0, rescued_cont = 0;
   uint64_t cold_moving = 0, reduced = 0, rescued_boost = 0, rescued_textbook = 0;
   uint64_t unordered = 0, ties_skipped = 0, hllc_regions[3] = {0}, cont_waves = 0, sample_near_disc = 0;
   void note(int o, double ratio) {
@@ -385,12 +430,43 @@ static void report(Ctx &X, const Case &c, const char *solver, int oracle, const 
   if (fresh(X, key))
     X.R->violation(key, case_text(c) + " :: " + detail(), case_json(c, X.family, solver, oname[oracle]));
 }
+/// is the face (or the sampling speed, as face velocity) within rounding of
+/// a point where the density of the exact solution reaches zero: a vacuum
+/// front, or the tails/contact of a star region whose sound speed is below
+/// the rounding of the fan formulae (a* < 64 eps a_K)?  extra = additional
+/// rounding of the speeds (boosted calls)
+static bool near_vacuum_front(const Case &c, const Frame &f, double extra) {
+  if (f.front_at_face)
+    return true;
+  if (f.vacL && f.vacR)
+    return false;
+  RefL ref;
+  ref.setup((LD)c.g, (LD)(f.vacL ? 0. : c.rL), (LD)f.vL, (LD)(f.vacL ? 0. : c.pL),
+            (LD)(f.vacR ? 0. : c.rR), (LD)f.vR, (LD)(f.vacR ? 0. : c.pR));
+  const bool empty_star = ref.kind == rref::K_NORMAL && ((double)(ref.astar[0] / ref.a[0]) < 64. * EPS ||
+                                                         (double)(ref.astar[1] / ref.a[1]) < 64. * EPS);
+  const double band = 128. * EPS * (std::fabs(f.vL) + std::fabs(f.vR) + 2. / (c.g - 1.) * (f.aL + f.aR) +
+                                    norm(c.uL) + norm(c.uR) + norm(c.vf) + extra);
+  for (const auto &w : ref.waves())
+    if ((w.type == rref::W_FRONT ||
+         (empty_star && (w.type == rref::W_TAIL || w.type == rref::W_CONTACT))) &&
+        std::fabs((double)w.speed) <= band)
+      return true;
+  // a fan that reaches its (virtual) vacuum front within the rounding of the
+  // speeds: two sides on very different velocity scales just below the limit
+  if (ref.kind == rref::K_NORMAL)
+    for (int k = 0; k < 2; ++k)
+      if (!ref.shock[k] && std::fabs((double)(ref.tail[k] - ref.front[k])) <= band &&
+          std::fabs((double)ref.front[k]) <= band)
+        return true;
+  return false;
+}
 static void report_nonfinite(Ctx &X, const Case &c, const char *solver, const Frame &f, const char *which,
                              const Flux &F) {
   if (F.aborted)
     ++X.A->aborts;
   const std::string key = std::string("C05:") + solver + ":nonfinite:" + vac_name(f) +
-                          (f.front_at_face ? ":at-vacuum-front" : "");
+                          (near_vacuum_front(c, f, norm(c.w)) ? ":at-vacuum-front" : "");
   if (fresh(X, key))
     X.R->violation(key, case_text(c) + " :: " + which + " flux " + flux_text(F),
                    case_json(c, X.family, solver, "finite"));
@@ -456,16 +532,20 @@ static void check_lattice_case(Ctx &X, const Case &c) {
   T.ordered = false;
   // at the vacuum limit the approximate solver's own test decides its branch
   const bool hllc_waves = f.vac == 0 || (f.vac == 2 && hllc_takes_wave_branch(*X.hl, c));
+  CodeBranch B = {0, false};
   if (hllc_waves) {
     T = textbook_hllc(c);
-    ++A.hllc_regions[T.region + 1];
+    B = hllc_code_branch(*X.hl, c);
+    ++A.hllc_regions[B.region + 1];
   }
   if (X.verbose) {
     printf("%s\n face frame: vL=%.17g vR=%.17g aL=%.17g aR=%.17g vacuum limit %.17g regime %s\n",
            case_text(c).c_str(), f.vL, f.vR, f.aL, f.aR, f.lim, reg.c_str());
     if (hllc_waves)
-      printf(" textbook speeds SL=%.17Lg S*=%.17Lg SR=%.17Lg ordered=%d region %s\n", T.SL, T.Sstar, T.SR,
-             (int)T.ordered, hllc_region_name(T.region));
+      printf(" textbook speeds SL=%.17Lg S*=%.17Lg SR=%.17Lg ordered=%d region %s; code (double): ordered=%d "
+             "region %s\n",
+             T.SL, T.Sstar, T.SR, (int)T.ordered, hllc_region_name(T.region), (int)B.ordered,
+             hllc_region_name(B.region));
   }
   Flux Fsolver[2];
   bool okf[2] = {false, false};
@@ -474,7 +554,7 @@ static void check_lattice_case(Ctx &X, const Case &c) {
     const RiemannSolver &S = exact ? (const RiemannSolver &)*X.ex : (const RiemannSolver &)*X.hl;
     const char *sn = exact ? "exact" : "hllc";
     // name of the regime in the keys of this solver
-    const std::string regs = (!exact && hllc_waves) ? "no-vacuum:" + hllc_sub(T) : reg;
+    const std::string regs = (!exact && hllc_waves) ? "no-vacuum:" + hllc_sub(B, T) : reg;
     const Flux F = call(S, c);
     ++A.calls;
     Fsolver[is] = F;
@@ -507,10 +587,21 @@ static void check_lattice_case(Ctx &X, const Case &c) {
           fprintf(stderr, "NEAR swap %s ratio %.3g comp %s :: %s\n", sn, r, cname[wi], case_text(c).c_str());
         if (X.verbose)
           printf(" %-5s swapped         %s ratio %.3g\n", sn, flux_text(G).c_str(), r);
-        if (r > 1.)
-          report(X, c, sn, O_SWAP, regs,
+        if (r > 1.) {
+          std::string rg = regs;
+          if (!exact && hllc_waves) {
+            Case cs = c;
+            std::swap(cs.rL, cs.rR);
+            std::swap(cs.uL, cs.uR);
+            std::swap(cs.pL, cs.pR);
+            cs.n = -1. * c.n;
+            const CodeBranch B2 = hllc_code_branch(*X.hl, cs);
+            rg = "no-vacuum:" + hllc_sub(B, T, &B2);
+          }
+          report(X, c, sn, O_SWAP, rg,
                  [&]() { return fmt("flux %s, swapped+reversed %s: %s sum %.6g tolerance %.3g", flux_text(F).c_str(),
                      flux_text(G).c_str(), cname[wi], G.c(wi) + F.c(wi), tol[wi]); });
+        }
       }
     }
     // --- Galilean boost of both states and the face.  At the vacuum limit
@@ -554,12 +645,22 @@ static void check_lattice_case(Ctx &X, const Case &c) {
         A.note(O_BOOST, r);
         if (X.verbose)
           printf(" %-5s boosted         %s ratio %.3g\n", sn, flux_text(G).c_str(), r);
-        if (r > 1.)
-          report(X, c, sn, O_BOOST, regs,
+        if (r > 1.) {
+          std::string rg = regs;
+          if (!exact && hllc_waves) {
+            Case cb = c;
+            cb.uL = c.uL + c.w;
+            cb.uR = c.uR + c.w;
+            cb.vf = c.vf + c.w;
+            const CodeBranch B2 = hllc_code_branch(*X.hl, cb);
+            rg = "no-vacuum:" + hllc_sub(B, T, &B2);
+          }
+          report(X, c, sn, O_BOOST, rg,
                  [&]() { return fmt("flux %s, boosted by [%.17g, %.17g, %.17g] %s: %s differs from the transformed flux "
                      "by %.6g, tolerance %.3g",
                      flux_text(F).c_str(), c.w.x, c.w.y, c.w.z, flux_text(G).c_str(), cname[wi],
                      G.c(wi) - want[wi], tol[wi]); });
+        }
       }
     }
   }
@@ -585,7 +686,9 @@ static void check_lattice_case(Ctx &X, const Case &c) {
   }
   // --- ordered wave speeds: textbook HLLC
   if (okf[1] && hllc_waves) {
-    if (!T.ordered)
+    // the claim holds for ordered estimates: of the code (double) and of the
+    // reference evaluation (long double)
+    if (!T.ordered || !B.ordered)
       ++A.unordered;
     else {
       // k = 64 on the sum of the magnitudes of the terms of the textbook
@@ -616,7 +719,7 @@ static void check_lattice_case(Ctx &X, const Case &c) {
         printf(" textbook HLLC         (%.17g, [%.17g, %.17g, %.17g], %.17g) ratio %.3g\n", want[0], want[1],
                want[2], want[3], want[4], r);
       if (r > 1.)
-        report(X, c, "hllc", O_TEXTBOOK, "no-vacuum:" + hllc_sub(T),
+        report(X, c, "hllc", O_TEXTBOOK, "no-vacuum:" + hllc_sub(B, T),
                [&]() { return fmt("hllc %s textbook (%.17g, [%.17g, %.17g, %.17g], %.17g) with SL=%.17Lg S*=%.17Lg "
                    "SR=%.17Lg: %s differs by %.6g, tolerance %.3g",
                    flux_text(Fsolver[1]).c_str(), want[0], want[1], want[2], want[3], want[4], T.SL, T.Sstar,
@@ -695,7 +798,8 @@ static void check_mirror_case(Ctx &X, const Case &c) {
   ++A.regimes[f.vac];
   ++A.nontrivial;
   const Scale s = flux_scale(c, f, 0.);
-  Textbook T = textbook_hllc(c);
+  const CodeBranch B = hllc_code_branch(*X.hl, c);
+  const Textbook T = textbook_hllc(c);
   if (X.verbose)
     printf("%s\n face frame: vL=%.17g vR=%.17g aL=%.17g\n", case_text(c).c_str(), f.vL, f.vR, f.aL);
   for (int is = 0; is < 2; ++is) {
@@ -716,7 +820,7 @@ static void check_mirror_case(Ctx &X, const Case &c) {
     A.note(O_MIRROR, ratio);
     if (ratio > 1.)
       report(X, c, sn, O_MIRROR,
-             exact ? regime_name(f) : "no-vacuum:" + hllc_sub(T),
+             exact ? regime_name(f) : "no-vacuum:" + hllc_sub(B, T),
              [&]() { return fmt("flux %s: mass flux %.6g (tolerance %.3g), energy flux %.6g (tolerance %.3g)",
                  flux_text(F).c_str(), F.m, rel * s.m, F.E, rel * s.E); });
   }
@@ -724,26 +828,36 @@ static void check_mirror_case(Ctx &X, const Case &c) {
 
 // ---------------------------------------------------------------------------
 // continuity of the flux when a wave changes direction relative to the face
-struct Nb { // state next to a wave: density, normal velocity, pressure, tangential speed
-  double r, v, p, t;
+//
+// For a self-similar solution U(x/t) the flux through a face that moves with
+// speed w along the normal is G(w) = F(U(w)) - w U(w) and dG/dw = -U(w): the
+// fluxes at w = s -+ delta may differ by 2 delta |U| (k = 4 -> 8 delta |U|),
+// plus the accuracy with which the solver knows its own states.
+static void hllc_sensitivity(Ctx &X, const Case &c, const Flux &F0, double eta, double var[5]);
+struct Mag { // magnitudes next to a wave: conserved state and flux, per kind
+  double U[3], G[3]; // mass, momentum, energy
 };
-static void mags(const Nb &s, double g, double speed, double U[3], double G[3]) {
-  const double E = 0.5 * s.r * (s.v * s.v + s.t * s.t) + s.p / (g - 1.);
-  U[0] = s.r;
-  U[1] = s.r * (std::fabs(s.v) + s.t);
-  U[2] = E;
-  const double a = s.r > 0. ? std::sqrt(g * s.p / s.r) : 0.;
-  const double q = std::fabs(s.v) + std::fabs(speed) + a;
-  G[0] = s.r * q;
-  G[1] = s.r * q * (std::fabs(s.v) + s.t) + s.p;
-  G[2] = (E + s.p) * std::fabs(s.v) + E * std::fabs(speed);
+static Mag mag_of_state(double r, double v, double p, double t, double g, double speed) {
+  Mag m;
+  const double E = 0.5 * r * (v * v + t * t) + p / (g - 1.);
+  const double a = r > 0. ? std::sqrt(g * p / r) : 0.;
+  m.U[0] = r;
+  m.U[1] = r * (std::fabs(v) + t);
+  m.U[2] = E;
+  // flux magnitudes in the frame of the moving face, where every normal
+  // velocity is of the order q = |v| + |w| + a
+  const double q = std::fabs(v) + std::fabs(speed) + a;
+  m.G[0] = r * q;
+  m.G[1] = r * q * (q + t) + p;
+  m.G[2] = (0.5 * r * (q * q + t * t) + g / (g - 1.) * p) * q;
+  return m;
 }
 static void check_wave_crossing(Ctx &X, const Case &c0, const Frame &f, bool exact, double s, double delta,
-                                const Nb &left, const Nb &right, double noise, const std::string &regime,
-                                const char *wname) {
+                                const Mag &left, const Mag &right, double noise, const double extra[3],
+                                const std::string &regime, const char *wname) {
+  Acc &A = *X.A;
   // absolute rounding of the velocities in the frame of the face (k = 64)
   const double vround = 64. * EPS * (std::fabs(s) + norm(c0.uL) + norm(c0.uR) + f.aL + f.aR);
-  Acc &A = *X.A;
   const RiemannSolver &S = exact ? (const RiemannSolver &)*X.ex : (const RiemannSolver &)*X.hl;
   const char *sn = exact ? "exact" : "hllc";
   Case c1 = c0, c2 = c0;
@@ -757,17 +871,19 @@ static void check_wave_crossing(Ctx &X, const Case &c0, const Frame &f, bool exa
                      !finite(Fa) ? Fa : Fb);
     return;
   }
-  double U1[3], G1[3], U2[3], G2[3];
-  mags(left, c0.g, s, U1, G1);
-  mags(right, c0.g, s, U2, G2);
   double worst = 0.;
   int wi = 0;
   double tolw = 0.;
   for (int i = 0; i < 5; ++i) {
     const int k = i == 0 ? 0 : i == 4 ? 2 : 1;
-    // d/dw [F(U) - w U] = -U inside a self-similar solution (k = 8 over the
-    // width 2 delta), plus the accuracy of the solver on the local flux
-    const double tol = (8. * delta + vround) * std::max(U1[k], U2[k]) + noise * std::max(G1[k], G2[k]);
+    // the fluxes are returned in the fixed frame: F_p + w F_m and
+    // F_E + w F_p + 1/2 w^2 F_m carry the rounding of their largest term (k = 64)
+    const double g0 = std::max(left.G[0], right.G[0]), g1 = std::max(left.G[1], right.G[1]);
+    const double ws = std::fabs(s) + delta;
+    const double deboost = 64. * EPS * (std::max(left.G[k], right.G[k]) +
+                                        (k == 0 ? 0. : k == 1 ? ws * g0 : ws * g1 + ws * ws * g0));
+    const double tol = (8. * delta + vround) * std::max(left.U[k], right.U[k]) +
+                       noise * std::max(left.G[k], right.G[k]) + extra[k] + deboost;
     const double d = std::fabs(Fa.c(i) - Fb.c(i));
     const double r = d == 0. ? 0. : (tol > 0. ? d / tol : 1e300);
     if (r > worst) {
@@ -776,15 +892,72 @@ static void check_wave_crossing(Ctx &X, const Case &c0, const Frame &f, bool exa
       tolw = tol;
     }
   }
+  if (worst > 1. && !exact && (f.vac == 0)) {
+    // the two calls see velocities that are rounded differences: allow the
+    // variation of the approximate solver's flux over that rounding
+    double va[5], vb[5];
+    hllc_sensitivity(X, c1, Fa, vround / 8., va);
+    hllc_sensitivity(X, c2, Fb, vround / 8., vb);
+    worst = 0.;
+    for (int i = 0; i < 5; ++i) {
+      const int k = i == 0 ? 0 : i == 4 ? 2 : 1;
+      const double g0 = std::max(left.G[0], right.G[0]), g1 = std::max(left.G[1], right.G[1]);
+      const double ws = std::fabs(s) + delta;
+      const double deboost = 64. * EPS * (std::max(left.G[k], right.G[k]) +
+                                          (k == 0 ? 0. : k == 1 ? ws * g0 : ws * g1 + ws * ws * g0));
+      const double tol = (8. * delta + vround) * std::max(left.U[k], right.U[k]) +
+                         noise * std::max(left.G[k], right.G[k]) + extra[k] + deboost + 2. * (va[i] + vb[i]);
+      const double d = std::fabs(Fa.c(i) - Fb.c(i));
+      const double r = d == 0. ? 0. : (tol > 0. ? d / tol : 1e300);
+      if (r > worst) {
+        worst = r;
+        wi = i;
+        tolw = tol;
+      }
+    }
+    if (worst <= 1.)
+      ++A.rescued_cont;
+  }
   A.note(O_CONT, worst);
   if (X.verbose)
     printf(" %-5s %-13s at %.17g +- %.3g: %s | %s ratio %.3g\n", sn, wname, s, delta, flux_text(Fa).c_str(),
            flux_text(Fb).c_str(), worst);
   if (worst > 1.)
-    report(X, c1, sn, O_CONT, regime + ":" + wname,
-           [&]() { return fmt("face speeds %.17g -+ %.3g along the normal: fluxes %s and %s: %s jumps by %.6g, allowed "
-               "%.3g",
-               s, delta, flux_text(Fa).c_str(), flux_text(Fb).c_str(), cname[wi], Fb.c(wi) - Fa.c(wi), tolw); });
+    report(X, c1, sn, O_CONT, regime + ":" + wname, [&]() {
+      return fmt("face speeds %.17g -+ %.3g along the normal: fluxes %s and %s: %s jumps by %.6g, allowed "
+                 "%.3g",
+                 s, delta, flux_text(Fa).c_str(), flux_text(Fb).c_str(), cname[wi], Fb.c(wi) - Fa.c(wi), tolw);
+    });
+}
+
+/// magnitudes of the four states of the textbook HLLC fan (left, star-left,
+/// star-right, right) for a face that moves with `speed`
+static void hllc_mags(const Case &c, const Frame &f, const Textbook &T, double tL, double tR, double speed,
+                      Mag out[4]) {
+  for (int side = 0; side < 2; ++side) {
+    const bool left = side == 0;
+    const LD g = c.g;
+    const LD rK = left ? c.rL : c.rR, pK = left ? c.pL : c.pR, vK = left ? f.vL : f.vR;
+    const LD tK = left ? tL : tR, aK = left ? f.aL : f.aR;
+    const LD SK = left ? T.SL : T.SR, dSK = SK - vK;
+    const LD EK = pK / (g - 1) + 0.5L * rK * (vK * vK + tK * tK);
+    const LD fac = dSK / (SK - T.Sstar), d = T.Sstar - vK;
+    // star state: sums of the magnitudes of the terms of U*_K
+    const LD rs = fabsl(rK * fac);
+    const LD ms = rs * (fabsl(vK) + fabsl(d) + tK);
+    const LD Es = rs * (EK / rK + fabsl(d) * (fabsl(T.Sstar) + fabsl(pK / (rK * dSK))));
+    const LD ps = pK + fabsl(rK * dSK * d);
+    Mag &K = out[left ? 0 : 3], &Ks = out[left ? 1 : 2];
+    K = mag_of_state((double)rK, (double)vK, (double)pK, (double)tK, c.g, speed);
+    K.U[2] = (double)EK;
+    const LD q = fabsl(vK) + fabsl(d) + fabsl((LD)speed) + fabsl(dSK) + aK;
+    Ks.U[0] = (double)rs;
+    Ks.U[1] = (double)ms;
+    Ks.U[2] = (double)Es;
+    Ks.G[0] = (double)(rs * q);
+    Ks.G[1] = (double)(rs * q * (q + tK) + ps);
+    Ks.G[2] = (double)((Es + 0.5L * rs * q * q + g / (g - 1) * ps) * q);
+  }
 }
 
 static void check_continuity_case(Ctx &X, const Case &c) {
@@ -799,10 +972,12 @@ static void check_continuity_case(Ctx &X, const Case &c) {
   if (!(V > 0.))
     return;
   // half width of the window around a wave: 1e-3 of the distance to the
-  // nearest other wave (the two sides of a problem may live on very different
-  // scales), skipped when that is not resolved by the rounding of the speeds
-  auto window = [&](const std::vector< double > &sp, size_t i) {
-    double gap = f.aL + f.aR;
+  // nearest other wave and of the local sound speed (the two sides of a
+  // problem may live on very different scales; inside a fan the state changes
+  // by O(1) over one sound speed), skipped when that is not resolved by the
+  // rounding of the speeds
+  auto window = [&](const std::vector< double > &sp, size_t i, double alocal) {
+    double gap = alocal;
     if (i > 0)
       gap = std::min(gap, sp[i] - sp[i - 1]);
     if (i + 1 < sp.size())
@@ -824,29 +999,56 @@ static void check_continuity_case(Ctx &X, const Case &c) {
   ref.setup((LD)c.g, (LD)(f.vacL ? 0. : c.rL), (LD)f.vL, (LD)(f.vacL ? 0. : c.pL),
             (LD)(f.vacR ? 0. : c.rR), (LD)f.vR, (LD)(f.vacR ? 0. : c.pR));
   const std::vector< rref::Wave< LD > > waves = ref.waves();
+  const double zero3[3] = {0., 0., 0.};
   for (int is = 0; is < 2; ++is) {
     const bool exact = is == 0;
     if (!exact && f.vac == 2)
       continue; // branch of the approximate solver not determined at the tie
     if (exact || f.vac != 0) {
-      const double noise = (f.vac == 0 || f.vac == 2) ? 4e-7 : 1e-9 * (1. + 2. * c.g / (c.g - 1.));
+      const bool iterative = exact && ref.kind == rref::K_NORMAL;
+      const double noise = iterative ? 4e-7 : 1e-9 * (1. + 2. * c.g / (c.g - 1.));
+      // the iterative solver knows p* to 1e-8 relative (k = 4) and u* only to
+      // the propagated 1/2 (dDelta_L/dp + dDelta_R/dp) dp
+      double dp = 0., du = 0.;
+      if (iterative) {
+        dp = 4e-8 * (double)ref.pstar;
+        du = 0.5 * (double)(ref.ddelta(0, ref.ystar) + ref.ddelta(1, ref.ystar)) * dp;
+      }
       std::vector< double > sp;
       for (const auto &w : waves)
         sp.push_back((double)w.speed);
       for (size_t iw = 0; iw < waves.size(); ++iw) {
         const auto &w = waves[iw];
         const double s = sp[iw];
-        const double delta = window(sp, iw);
+        LD r1, v1, p1, r2, v2, p2;
+        ref.state(w.left, (LD)s, r1, v1, p1);
+        ref.state(w.right, (LD)s, r2, v2, p2);
+        double alocal = f.aL + f.aR;
+        if (r1 > 0)
+          alocal = std::min(alocal, std::sqrt(c.g * (double)p1 / (double)r1));
+        if (r2 > 0)
+          alocal = std::min(alocal, std::sqrt(c.g * (double)p2 / (double)r2));
+        const double delta = window(sp, iw, alocal);
         if (delta < 0.) {
           ++A.cont_unresolved;
           continue;
         }
-        LD r1, v1, p1, r2, v2, p2;
         ref.state(w.left, (LD)(s - delta), r1, v1, p1);
         ref.state(w.right, (LD)(s + delta), r2, v2, p2);
-        const Nb a = {(double)r1, (double)v1, (double)p1, w.left <= rref::REG_LSTAR ? tL : tR};
-        const Nb b = {(double)r2, (double)v2, (double)p2, w.right <= rref::REG_LSTAR ? tL : tR};
-        check_wave_crossing(X, c, f, exact, s, delta, a, b, noise, reg, rref::wave_name(w.type));
+        const Mag a = mag_of_state((double)r1, (double)v1, (double)p1,
+                                   w.left <= rref::REG_LSTAR ? tL : tR, c.g, s);
+        const Mag b = mag_of_state((double)r2, (double)v2, (double)p2,
+                                   w.right <= rref::REG_LSTAR ? tL : tR, c.g, s);
+        double extra[3] = {0., 0., 0.};
+        if (iterative) {
+          const double rm = std::max(a.U[0], b.U[0]), mm = std::max(a.U[1], b.U[1]);
+          const double q = std::max(std::fabs((double)v1), std::fabs((double)v2)) + std::fabs(s);
+          extra[0] = rm * du;
+          extra[1] = (2. * mm + rm * std::fabs(s)) * du + dp;
+          extra[2] = (std::max(a.U[2], b.U[2]) + std::max((double)p1, (double)p2) + mm * q) * du +
+                     c.g / (c.g - 1.) * q * dp;
+        }
+        check_wave_crossing(X, c, f, exact, s, delta, a, b, noise, extra, reg, rref::wave_name(w.type));
       }
     } else {
       const Textbook T = textbook_hllc(c);
@@ -854,29 +1056,20 @@ static void check_continuity_case(Ctx &X, const Case &c) {
         ++A.unordered;
         continue;
       }
-      auto starstate = [&](bool left) {
-        const double rK = left ? c.rL : c.rR, vK = left ? f.vL : f.vR, pK = left ? c.pL : c.pR;
-        const double SK = (double)(left ? T.SL : T.SR), Ss = (double)T.Sstar;
-        Nb s;
-        s.r = rK * (SK - vK) / (SK - Ss);
-        s.v = Ss;
-        s.p = std::fabs(pK + rK * (SK - vK) * (Ss - vK));
-        s.t = left ? tL : tR;
-        return s;
-      };
-      const Nb UL = {c.rL, f.vL, c.pL, tL}, UR = {c.rR, f.vR, c.pR, tR};
-      const Nb SLs = starstate(true), SRs = starstate(false);
       const std::string r2 = reg + ":hllc-star-state";
       const std::vector< double > sp = {(double)T.SL, (double)T.Sstar, (double)T.SR};
-      const Nb *nb[4] = {&UL, &SLs, &SRs, &UR};
+      const double al[3] = {f.aL, std::min(f.aL, f.aR), f.aR};
       const char *wn[3] = {"left-wave", "contact", "right-wave"};
       for (size_t iw = 0; iw < 3; ++iw) {
-        const double delta = window(sp, iw);
+        const double delta = window(sp, iw, al[iw]);
         if (delta < 0.) {
           ++A.cont_unresolved;
           continue;
         }
-        check_wave_crossing(X, c, f, false, sp[iw], delta, *nb[iw], *nb[iw + 1], 1e-9, r2, wn[iw]);
+        Mag m[4];
+        hllc_mags(c, f, T, tL, tR, sp[iw], m);
+        const Mag a = m[iw], b = m[iw + 1];
+        check_wave_crossing(X, c, f, false, sp[iw], delta, a, b, 1e-9, zero3, r2, wn[iw]);
       }
     }
   }
@@ -922,6 +1115,13 @@ static void check_sample_case(Ctx &X, const Case &c) {
   if (!(f.vacL && f.vacR))
     ++A.nontrivial;
   const std::string reg = regime_name(f);
+  // in the boosted evaluation the gas next to a vacuum always moves
+  std::string regb = reg;
+  {
+    const size_t q = regb.find("-gas-at-rest");
+    if (q != std::string::npos)
+      regb.replace(q, 12, "-moving-gas");
+  }
   const ExactRiemannSolver &S = *X.ex;
   const double uL = c.uL.x, uR = c.uR.x, w = c.w.x;
   const St s0 = solve1d(S, c.rL, uL, c.pL, c.rR, uR, c.pR, c.xi);
@@ -943,7 +1143,7 @@ static void check_sample_case(Ctx &X, const Case &c) {
       if (all[i]->aborted)
         ++A.aborts;
       X.R->violation(std::string("C05:exact:sample-nonphysical:") + vac_name(f) +
-                         (f.front_at_face ? ":at-vacuum-front" : ""),
+                         (near_vacuum_front(cf, f, std::fabs(w)) ? ":at-vacuum-front" : ""),
                      case_text(c) + fmt(" xi=%.17g w=%.17g :: %s sample (%g, %g, %g)%s", c.xi, w, which[i],
                                         all[i]->r, all[i]->u, all[i]->p, all[i]->aborted ? " abort" : ""),
                      case_json(c, X.family, "exact", "sample"));
@@ -994,7 +1194,8 @@ static void check_sample_case(Ctx &X, const Case &c) {
       }
       double r2 = std::max(std::fabs(t.r - s0.r) / (tr + 2. * vr + DBL_MIN),
                            std::fabs(t.p - s0.p) / (tp + 2. * vp + DBL_MIN));
-      if (!empty)
+      // (a vacuum sample carries no velocity)
+      if (!empty && t.flag != 0 && s0.flag != 0)
         r2 = std::max(r2, std::fabs(t.u - uw) / (tu + 2. * vu + DBL_MIN));
       if (r2 <= 1. && (t.flag == fw || empty || vr > 0. || vp > 0.)) {
         ratio = r2;
@@ -1003,7 +1204,8 @@ static void check_sample_case(Ctx &X, const Case &c) {
     }
     A.note(O_SAMPLE, ratio);
     if (ratio > 1.)
-      X.R->violation(std::string("C05:exact:sample-") + (i == 1 ? "boost" : "mirror") + ":" + reg,
+      X.R->violation(std::string("C05:exact:sample-") + (i == 1 ? "boost" : "mirror") + ":" +
+                         (i == 1 ? regb : reg),
                      case_text(c) + fmt(" xi=%.17g w=%.17g :: direct (%.17g, %.17g, %.17g) flag %d, %s "
                                         "(%.17g, %.17g, %.17g) flag %d, expected velocity %.17g",
                                         c.xi, w, s0.r, s0.u, s0.p, s0.flag, which[i], t.r, t.u, t.p, t.flag,
@@ -1112,6 +1314,7 @@ static void merge(Acc &T, const Acc &a) {
   T.cold_moving += a.cold_moving;
   T.reduced += a.reduced;
   T.cont_unresolved += a.cont_unresolved;
+  T.rescued_cont += a.rescued_cont;
   T.sample_rescued += a.sample_rescued;
   T.rescued_boost += a.rescued_boost;
   T.rescued_textbook += a.rescued_textbook;
@@ -1410,6 +1613,7 @@ int main(int argc, char **argv) {
   R.set("vacuum_limit_ties_without_hllc_equals_exact_claim", (double)T.ties_skipped);
   R.set("wave_crossings_checked", (double)T.cont_waves);
   R.set("wave_crossings_not_resolved_by_double_speeds_skipped", (double)T.cont_unresolved);
+  R.set("hllc_crossings_passed_only_with_input_rounding_sensitivity", (double)T.rescued_cont);
   R.set("sample_comparisons_passed_only_with_speed_rounding_sensitivity", (double)T.sample_rescued);
   R.set("samples_next_to_discontinuity_not_compared", (double)T.sample_near_disc);
   static const char *rn[6] = {"no_vacuum", "vacuum_generation", "vacuum_limit_tie", "right_vacuum", "left_vacuum",
